@@ -105,6 +105,22 @@ def a64_mem(rng, pool, allow_wb=True):
     return "[%s], #%d" % (base, disp)
 
 
+def a64_struct_access(rng, pool, vregs, base=None, index=None):
+    """SIMD structure load/store -- the AArch64 instructions that allow post-indexing by a REGISTER
+    (`ld1 {v0.2d}, [x1], x2`, `st1 {v3.4s}, [x4], x5`, `ld1r`, `ld2`), besides the immediate and the plain form"""
+    mn = rng.choice(["ld1", "ld1", "st1", "st1", "ld1r", "ld2"])
+    shape = rng.choice(["2d", "2d", "4s", "16b"])
+    a = rng.choice(vregs)
+    regs = "v%d.%s" % (a, shape) if mn != "ld2" else "v%d.%s, v%d.%s" % (a, shape, (a + 1) % 32, shape)
+    b = base if base is not None else "x%d" % rng.choice(pool)
+    tail = rng.choice(["r", "r", "r", "i", ""])
+    if index is not None or tail == "r":
+        return "%s {%s}, [%s], %s" % (mn, regs, b, index if index is not None else "x%d" % rng.choice(pool))
+    if tail == "i":
+        return "%s {%s}, [%s], #%d" % (mn, regs, b, 8 if mn == "ld1r" else (32 if mn == "ld2" else 16))
+    return "%s {%s}, [%s]" % (mn, regs, b)
+
+
 def gen_a64_kernel(rng, n, mem=True, npool=4):
     pool = rng.sample(A64_X, npool)
     dregs = rng.sample(range(16), 4)
@@ -136,13 +152,15 @@ def gen_a64_kernel(rng, n, mem=True, npool=4):
             p = rng.choice(["d", "q", "x"])
             reg = "%s%d" % (p, rng.choice(dregs if p != "x" else pool))
             lines.append("ldr %s, %s" % (reg, a64_mem(rng, pool)))
-        elif mem and r < 0.92:
+        elif mem and r < 0.90:
             p = rng.choice(["d", "q", "x"])
             reg = "%s%d" % (p, rng.choice(dregs if p != "x" else pool))
             lines.append("str %s, %s" % (reg, a64_mem(rng, pool)))
-        elif mem and r < 0.96:
+        elif mem and r < 0.93:
             a, b = rng.sample(dregs, 2)
             lines.append("%s d%d, d%d, %s" % (rng.choice(["ldp", "stp"]), a, b, a64_mem(rng, pool)))
+        elif mem and r < 0.975:
+            lines.append(a64_struct_access(rng, pool, dregs))
         else:
             lines.append(rng.choice(["b.ne .L%d" % rng.randrange(3), "bne .L2", "// a comment", ".L%d:" % rng.randrange(3)]))
     return lines
@@ -403,6 +421,7 @@ def gen_memdep_a64(rng):
     store_addr = _sym_addr(sym, base, idx if has_idx else None, 2 ** sh, d0)
     holders_b, holders_i = [base], [idx]
     second = False
+    reg_post = set()                            # registers post-indexed by a register after the store, and their copies
     for _ in range(rng.choice([0, 0, 1, 1, 2, 3, 4])):
         r = rng.random()
         pool = holders_b + (holders_i if has_idx else [])
@@ -416,10 +435,16 @@ def gen_memdep_a64(rng):
             k = rng.choice([8, 16])
             lines.append("sub %s, %s, #%d" % (reg, reg, k))
             sym[reg] = None if v is None else (v[0], v[1] - k)
-        elif r < 0.52:
+        elif r < 0.47:
             k = rng.choice([8, 16, 32])
             lines.append("ldr d5, [%s], #%d" % (reg, k))          # post-indexed access bumps the register
             sym[reg] = None if v is None else (v[0], v[1] + k)
+        elif r < 0.56:
+            # post-indexed by a REGISTER (`ld1 {v5.2d}, [x1], x2`, `st1 {v3.4s}, [x4], x5`): the register moves by an amount
+            # that is not known statically -- from here on nothing can be said about addresses formed with it
+            lines.append(a64_struct_access(rng, None, [3, 5, 6, 7], base=reg, index=rng.choice([other, "x13", "x14"])))
+            sym[reg] = None
+            reg_post.add(reg)
         elif r < 0.62:
             k = rng.choice([8, 16])
             c = c1 if reg in holders_b else c2
@@ -427,6 +452,7 @@ def gen_memdep_a64(rng):
                 continue
             lines.append("add %s, %s, #%d" % (c, reg, k))         # copy with increment
             sym[c] = None if v is None else (v[0], v[1] + k)
+            (reg_post.add if reg in reg_post else reg_post.discard)(c)    # a copy inherits where its value comes from
             if c not in pool:
                 (holders_b if reg in holders_b else holders_i).append(c)
         elif r < 0.80:
@@ -435,6 +461,7 @@ def gen_memdep_a64(rng):
                 continue
             lines.append("mov %s, %s" % (c, reg))
             sym[c] = v
+            (reg_post.add if reg in reg_post else reg_post.discard)(c)    # a copy inherits where its value comes from
             if c not in pool:
                 (holders_b if reg in holders_b else holders_i).append(c)
         elif r < 0.90:
@@ -465,4 +492,8 @@ def gen_memdep_a64(rng):
     same = la_sym is not None and la_sym == store_addr
     lines.append(rng.choice(["ldr x9, %s" % la, "ldr d2, %s" % la]))
     lines.append("add x10, x9, x9")
-    return lines, {"same_location": same, "known": la_sym is not None, "second_store": second}
+    # does the load form its address with a register whose value stems (also through copies) from one that was
+    # post-indexed by a register?  Then the address is unknown (`sym` says so as well) and no dependency is demanded
+    through = [x for x in (lb, li) if x is not None and x in reg_post]
+    return lines, {"same_location": same, "known": la_sym is not None, "second_store": second,
+                   "register_post_index": sorted(reg_post), "load_through_unknown": bool(through)}
